@@ -1433,7 +1433,7 @@ SUBCHECKS = [
              rule="par_reduce(fn, seq, num_threads) with tuple concatenation (order), integer matmul, kron_dispatch, and "
                   "kron(*ops, parallel=True) under an emulated worker count, 1-9 operands (product <= 128 rows: no nested "
                   "kernel threading) vs functools.reduce / np.kron; nt: tasks submitted (>= 3 operands) and threads >= 2"),
-    SubCheck("par_reduce_nested", run_nested, s_nested, examples=(40, 400), shards=(1, 4),
+    SubCheck("par_reduce_nested", run_nested, s_nested, examples=(150, 1500), shards=(1, 4),
              rule="kron(*ops, parallel=True) / par_reduce on quimb's genuine cached pool with k default workers where the "
                   "pairwise products themselves start threaded kernels (> 128 rows): must return (dead-lock criterion, timing free: every "
                   "worker runs a task whose own sub-tasks are still queued) and equal np.kron; nt: >= 1 nested product"),
